@@ -135,8 +135,11 @@ func checkC17(c *Ctx) {
 		if fn := need(pk, "radixTwoFri", "verifyProofOfProximitySingleRound"); fn != nil {
 			RequireFacts(c, p, "C17.guard", fn, AcceptNilErr, nil, []Req{
 				{"merkle(path of the query)", `^ok VerifyProof\(pr\.h,p1\.Interactions\[\*\]\[\*\]\.MerkleRoot,p1\.Interactions\[\*\]\[\*\]\.ProofSet,`},
-				{"merkle(path of the sibling)", `^ok VerifyProof\(pr\.h,p1\.Interactions\[\*\]\[\*\]\.MerkleRoot,make:\[\]\[\]byte,`},
-				{"final-evaluation", `^ok Element\.Equal\(local:Element,p1\.Evaluation\)$`},
+				// the sibling's path is rebuilt locally (make + copy, or appends), the query's is the proof's own
+				{"merkle(path of the sibling)", `^ok VerifyProof\(pr\.h,p1\.Interactions\[\*\]\[\*\]\.MerkleRoot,(make:\[\]\[\]byte|append\()`},
+				// the folded value is compared with the claimed final evaluation (directly, or through a
+				// local that holds "the value expected at this step")
+				{"final-evaluation", `^ok Element\.Equal\(local:Element,(p1\.Evaluation|local:Element)\)$`},
 				{"both-paths-under-the-bound-root", `^ok bytes\.Equal\(p1\.Interactions\[\*\]\[0\]\.MerkleRoot,p1\.Interactions\[\*\]\[1\]\.MerkleRoot\)$`},
 				{"challenge-computed", `^noerr Transcript\.ComputeChallenge\(`},
 			})
@@ -173,7 +176,7 @@ func checkC17(c *Ctx) {
 			{"LenEq(opened,selected)", `^len\(p0\.Proof\.OpenedColumns\) == len\(p0\.SelectedColumns\)$`},
 			{"LenEq(merkle proofs,selected)", `^len\(p0\.Proof\.MerkleProofOpenedColumns\) == len\(p0\.SelectedColumns\)$`},
 			{"InRange(column)>=0", `^0 <= p0\.SelectedColumns\[\*\]$`},
-			{"InRange(column)<n", `^p0\.SelectedColumns\[\*\] < len\(p0\.Proof\.UAlpha\)$`},
+			{"InRange(column)<n", `^p0\.SelectedColumns\[\*\] < (len\(p0\.Proof\.UAlpha\)|Params\.SizeCodeWord\(pr\))$`},
 			{"column-vs-combination", `^EvalBasePolyHorner\(p0\.Proof\.OpenedColumns\[\*\],p0\.Alpha\) == p0\.Proof\.UAlpha\[\*\]$`},
 			{"column-hashed", `^noerr RSis\.Hash\(pr\.Key,p0\.Proof\.OpenedColumns\[\*\],`},
 			{"merkle(column hash, position, root)", `^noerr MerkleProof\.Verify\(p0\.Proof\.MerkleProofOpenedColumns\[\*\],p0\.SelectedColumns\[\*\],HashPoseidon2\(.*\),p0\.MerkleRoot\)$`},
